@@ -9,7 +9,7 @@
 From Coq Require Import List NArith Bool Permutation Sorted.
 Import ListNotations.
 From QV Require Import Syncvar.Defs Syncvar.CellSpec Syncvar.History Syncvar.HistoryProofs Syncvar.HistoryComplete
-  Syncvar.HistoryIncr Syncvar.HistoryExamples.
+  Syncvar.HistoryIncr Syncvar.HistoryDecl Syncvar.HistoryExamples.
 Local Open Scope N_scope.
 
 (* soundness of the acceptor: an accepted history has a linearisation - a total order l of the completed calls that extends
@@ -98,3 +98,12 @@ Theorem svhist_overflow_no_effect_accepts : forall (fuel fuel' : N) (c0 : cell) 
   h_out x = OOver -> accepts fuel c0 (h1 ++ x :: h2) cfin = true -> decide fuel' c0 (h1 ++ h2) cfin <> Reject.
 Proof. exact overflow_no_effect_accepts. Qed.
 Print Assumptions svhist_overflow_no_effect_accepts.
+
+(* the specification read declaratively: the run relation hrun with its "undecided incrF" state accepts exactly the
+   linearisations of dlin (Syncvar/HistoryDecl.v), which is written over the bare cell: every call takes effect atomically
+   (atomic; incrF keeps the full bit), EXCEPT that an incrF on an empty cell may fill it when the call placed right after it
+   is a completed blocking read invoked before the incrF returned (a reader that was waiting: rule dlin_incr_fill) *)
+Theorem svhist_lazy_is_declarative : forall (c : cell) (l : list hop) (c' : cell),
+  (exists j', hrun (mkH c None) l (mkH c' j')) <-> dlin c l c'.
+Proof. exact lazy_is_declarative. Qed.
+Print Assumptions svhist_lazy_is_declarative.
